@@ -16,10 +16,16 @@ const (
 	mA = 0
 	mB = 1
 	mC = 2
-	mD = 3 // pseudo module: an instance of D whose instantiation FAILED after it had written into A's table
+	mM = 3 // defines and EXPORTS a growable memory (1..3 pages, default capacity: growth reallocates) and ld(addr)
+	mN = 4 // imports M's memory and M.ld; grows the memory, writes into it, calls ld through the import and through a table slot
+	mD = 5 // pseudo module: an instance of D whose instantiation FAILED after it had written into A's table
+
+	nMods = 5
 )
 
-var modNames = [3]string{"A", "B", "C"}
+var modNames = [nMods]string{"A", "B", "C", "M", "N"}
+
+func modIndex(c byte) int { return strings.IndexByte("ABCMN", c) }
 
 // function values a slot can hold
 const (
@@ -60,9 +66,11 @@ type state struct {
 	NoCache     bool // runtime created without a CompilationCache (Runtime.Close closes the engine)
 	RtClosed    bool
 	CacheClosed bool // engine closed (cache closed, or runtime closed in no-cache mode)
-	Inst        [3]uint8
-	Comp        [3]bool // compiled module closed
-	Drop        [3]bool // host dropped every reference (instance handle, compiled-module handle)
+	Inst        [nMods]uint8
+	Comp        [nMods]bool // compiled module closed
+	Drop        [nMods]bool // host dropped every reference (instance handle, compiled-module handle)
+	MemGrown    uint8       // how often M's exported memory was grown by one page (at most 2)
+	MemWrote    uint8       // 0: N never wrote; else 1 + MemGrown at the time of N's last write (first and last page)
 	Slots       [nSlots]uint8
 	Fill        uint8 // bit i: filler compiled module Fi was closed
 	Stale       bool  // a compiled module was deleted from the live engine and no fresh modules were added since
@@ -86,7 +94,7 @@ func (s state) key() string {
 	bit(s.RtClosed)
 	bit(s.CacheClosed)
 	b.WriteByte('|')
-	for i := 0; i < 3; i++ {
+	for i := 0; i < nMods; i++ {
 		b.WriteByte('0' + s.Inst[i])
 		bit(s.Comp[i])
 		bit(s.Drop[i])
@@ -96,6 +104,8 @@ func (s state) key() string {
 		b.WriteByte('0' + s.Slots[i])
 	}
 	b.WriteByte('|')
+	b.WriteByte('0' + s.MemGrown)
+	b.WriteByte('0' + s.MemWrote)
 	bit(s.Stale)
 	bit(s.GCClean)
 	if keyFillers {
@@ -106,7 +116,10 @@ func (s state) key() string {
 
 func (s state) String() string {
 	var p []string
-	for i := 0; i < 3; i++ {
+	for i := 0; i < nMods; i++ {
+		if i >= mM && s.Inst[i] == instNone {
+			continue
+		}
 		st := [...]string{"none", "open", "closed"}[s.Inst[i]]
 		if s.Comp[i] {
 			st += "+code-closed"
@@ -129,6 +142,9 @@ func (s state) String() string {
 	}
 	if s.NoCache {
 		p = append(p, "no-cache")
+	}
+	if s.MemGrown != 0 || s.MemWrote != 0 {
+		p = append(p, fmt.Sprintf("M.mem grown x%d, N wrote at size %d", s.MemGrown, s.MemWrote))
 	}
 	if s.Fill != 0 {
 		p = append(p, fmt.Sprintf("fillers-closed=%04b", s.Fill))
@@ -157,6 +173,9 @@ const (
 	kGC
 	kReenter // call X.reenter: the host function it calls performs a close while X's call is outstanding
 	kStore
+	kGrowGuest   // N executes memory.grow 1 on the memory it imports from M
+	kGrowHost    // the host grows M's memory by one page through api.Memory.Grow
+	kMemWrite    // N stores marker values at address 100 and at offset 100 of the last page
 	kCloseFiller // CompiledModule.Close of filler Fi: a compiled module with code that nobody ever instantiates
 	kFailInst    // instantiate a module D that imports A.tab, writes its own function into it with an active element segment, and then FAILS
 )
@@ -255,6 +274,12 @@ func (o op) String() string {
 			return fmt.Sprintf("store %s -> %s (guest: %s.%s)", fnNames[d.Fn], slotNames[d.Slot], modNames[d.Exec], d.Put)
 		}
 		return fmt.Sprintf("store %s -> %s (host: %s.%s() -> %s.%s(ref))", fnNames[d.Fn], slotNames[d.Slot], modNames[d.Src], d.Get, modNames[slotHolder[d.Slot]], d.Put)
+	case kGrowGuest:
+		return "N: memory.grow 1 (memory imported from M)"
+	case kGrowHost:
+		return "host: api.Memory.Grow(1) on M's exported memory"
+	case kMemWrite:
+		return "N: store markers at first and last page of the shared memory"
 	case kCloseFiller:
 		return fmt.Sprintf("close-compiled filler F%d (unused module)", o.X+1)
 	case kFailInst:
@@ -269,14 +294,14 @@ func allOps() []op {
 		o = append(o, op{K: kInst, X: x})
 	}
 	o = append(o, op{K: kFresh})
-	for x := 0; x < 3; x++ {
+	for x := 0; x < nMods; x++ {
 		o = append(o, op{K: kCloseInst, X: x})
 	}
-	for x := 0; x < 3; x++ {
+	for x := 0; x < nMods; x++ {
 		o = append(o, op{K: kCloseComp, X: x})
 	}
 	o = append(o, op{K: kCloseCache}, op{K: kCloseRt})
-	for x := 0; x < 3; x++ {
+	for x := 0; x < nMods; x++ {
 		o = append(o, op{K: kDrop, X: x})
 	}
 	o = append(o, op{K: kGC})
@@ -296,6 +321,7 @@ func allOps() []op {
 	for i := 0; i < 4; i++ {
 		o = append(o, op{K: kCloseFiller, X: i})
 	}
+	o = append(o, op{K: kGrowGuest}, op{K: kGrowHost}, op{K: kMemWrite})
 	return o
 }
 
@@ -347,6 +373,13 @@ func (s state) enabled(o op) bool {
 			return s.usable(d.Exec)
 		}
 		return s.usable(d.Src) && s.usable(slotHolder[d.Slot])
+	case kGrowGuest:
+		return s.Inst[mM] != instNone && s.usable(mN) && s.MemGrown < 2
+	case kGrowHost:
+		// through whichever handle the host still has (the importer's Memory() is the same MemoryInstance)
+		return s.Inst[mM] != instNone && (!s.Drop[mM] || (s.Inst[mN] != instNone && !s.Drop[mN])) && s.MemGrown < 2
+	case kMemWrite:
+		return s.usable(mN) && s.MemWrote != s.MemGrown+1
 	case kCloseFiller:
 		return s.Fill&(1<<o.X) == 0 && !s.RtClosed && !s.CacheClosed
 	case kFailInst:
@@ -409,6 +442,10 @@ func (s state) apply(o op) state {
 	case kStore:
 		d := storeDefs[o.X]
 		n.Slots[d.Slot] = d.Fn
+	case kGrowGuest, kGrowHost:
+		n.MemGrown++
+	case kMemWrite:
+		n.MemWrote = n.MemGrown + 1
 	case kCloseFiller:
 		n.Fill |= 1 << o.X // (not tracked in the "stale engine slot" bit; see keyFillers)
 	case kFailInst:
@@ -428,9 +465,9 @@ func (s state) apply(o op) state {
 // the runtime's module list (open instances while the runtime is open... an open instance stays registered),
 // host handles (not dropped), and the retention edges wazero maintains: B -> A (function import, table import),
 // A -> B (B is registered in the exported table's involvingModuleInstances). Raw references in slots are NOT edges.
-func (s state) reachable() [4]bool {
-	var r [4]bool
-	for x := 0; x < 3; x++ {
+func (s state) reachable() [nMods + 1]bool {
+	var r [nMods + 1]bool
+	for x := 0; x < nMods; x++ {
 		if s.Inst[x] == instNone {
 			continue
 		}
@@ -444,6 +481,9 @@ func (s state) reachable() [4]bool {
 	// a failed importer of A.tab stays registered in the table's involvingModuleInstances (an import edge exists):
 	// it lives as long as the table, i.e. as long as A
 	r[mD] = r[mA]
+	if s.Inst[mN] != instNone && r[mN] {
+		r[mM] = true // N imports M's function and memory
+	}
 	return r
 }
 
@@ -474,7 +514,7 @@ func (in initial) state() state {
 	var s state
 	s.NoCache = in.NoCache
 	for _, c := range in.Mods {
-		s.Inst[c-'A'] = instOpen
+		s.Inst[modIndex(byte(c))] = instOpen
 	}
 	return s
 }
